@@ -1,9 +1,12 @@
 /-
   Engine `param` (C14).  Op line (see harness/param.cpp):
-    <R|N> <id> <kind> <storage> <len> <pattern-hex> <meta-hex> <init-state> <msg>...
+    <prefix-hex> <id> <kind> <storage> <len> <pattern-hex> <meta-hex> <init-state> <msg>...
     msg = [<digits>@]<arg>[+<arg>...]   arg = q | i<dec> | c<dec> | f<hex8> | T | F | s<hex> | S<hex>
   Output: one token `<matches>;<events>;<state>` per message, then `X=ok`
   (the model's callbacks have no access to anything but the port's own field).
+  Events are printed as the harness prints them: sorted, integer tags as `i`, broadcasts
+  at the port's address left out when the stored value did not change; a string field is
+  printed as the C string it holds.
 -/
 import RtoscModel.Param.Port
 import Driver.Common
@@ -25,7 +28,7 @@ def parseInt (s : String) : Option Int := s.toInt?
 def parseKind : String → Option Kind
   | "P" => some .param | "F" => some .paramF | "I" => some .paramI | "O" => some .option
   | "T" => some .toggle | "S" => some .string | "f" => some .arrayF | "t" => some .arrayT
-  | "i" => some .arrayI | "o" => some .arrayOption | _ => none
+  | "i" => some .arrayI | "o" => some .arrayOption | "m" => some .arrayTMember | _ => none
 
 def parseTy : String → IntTy
   | "i8" => .i8 | "u8" => .u8 | "i16" => .i16 | _ => .i32
@@ -49,7 +52,15 @@ def showState : Field → String
   | .ints xs => ",".intercalate (xs.map toString)
   | .flts xs => ",".intercalate (xs.map hex32)
   | .bools xs => ",".intercalate (xs.map fun b => if b then "1" else "0")
-  | .str b => toHex b
+  | .str b =>
+    match cstr b with
+    | some s => toHex s
+    | none => "!" ++ toHex b
+
+/-- did the message change the stored value?  floats: IEEE `!=` per element -/
+def changed : Field → Field → Bool
+  | .flts xs, .flts ys => xs.length != ys.length || (xs.zip ys).any fun (a, b) => fNe a b
+  | a, b => showState a != showState b
 
 def parseArg (a : String) : Option Arg :=
   match a.toList with
@@ -81,12 +92,14 @@ def showArgVal : Arg → String
   | .F => ""
 
 def showEvent (e : Event) : String :=
-  let tags := String.ofList (e.args.map fun a => Char.ofNat a.tag.toNat)
+  let tags := String.ofList (e.args.map fun a => if a.tag == 99 then 'i' else Char.ofNat a.tag.toNat)
   (if e.bcast then "B:" else "R:") ++ toHex e.addr ++ ":" ++ (if tags.isEmpty then "-" else tags)
     ++ String.join (e.args.map showArgVal)
 
-def showEvents (es : List Event) : String :=
-  if es.isEmpty then "-" else ",".intercalate (es.map showEvent)
+def showEvents (loc : Bytes) (valueChanged : Bool) (es : List Event) : String :=
+  let es := es.filter fun e => valueChanged || !(e.bcast && e.addr == loc)
+  let out := (es.map showEvent).mergeSort (fun a b => decide (a ≤ b))
+  if out.isEmpty then "-" else ",".intercalate out
 
 def showErr : Err → String
   | .oob => "oob"
@@ -101,18 +114,17 @@ def runMsgs (p : Port) (pfx name : Bytes) : Field → List String → List Strin
       match dispatch p pfx (name ++ idx) fld args with
       | .error e => [s!"err:{showErr e}"]
       | .ok none => s!"0;-;{showState fld}" :: runMsgs p pfx name fld rest
-      | .ok (some (fld', ev)) => s!"1;{showEvents ev};{showState fld'}" :: runMsgs p pfx name fld' rest
+      | .ok (some (fld', ev)) =>
+        s!"1;{showEvents (pfx ++ name ++ idx) (changed fld fld') ev};{showState fld'}" :: runMsgs p pfx name fld' rest
 
 def step (line : String) : String :=
   match words line with
   | mode :: id :: kind :: storage :: len :: pat :: blk :: init :: msgs =>
-    match parseKind kind, len.toNat?, ofHex pat, ofHex blk, parseState storage init with
-    | some k, some n, some pattern, some block, some fld =>
-      if mode ≠ "R" ∧ mode ≠ "N" then "bad-op" else
+    match parseKind kind, len.toNat?, ofHex pat, ofHex blk, parseState storage init, ofHex mode with
+    | some k, some n, some pattern, some block, some fld, some pfx =>
       let p : Port := ⟨k, parseTy storage, n, pattern, block⟩
-      let pfx : Bytes := if mode = "N" then "/sub/".toUTF8.toList else "/".toUTF8.toList
       " ".intercalate (runMsgs p pfx id.toUTF8.toList fld msgs)
-    | _, _, _, _, _ => "bad-op"
+    | _, _, _, _, _, _ => "bad-op"
   | _ => "bad-op"
 
 def engine : Driver.Engine := Driver.stateless step
